@@ -32,6 +32,10 @@ RANGE_THRESHOLD_KM = 5.0
 
 VEH_ATTRS = ("eligible", "out_of_service", "off_shift", "low_range", "other_fleet", "no_fleet", "both_fleets")
 REQ_ATTRS = ("waiting", "has_vehicle", "other_fleet")
+# with fleets declared, vehicles and requests WITHOUT any fleet are matched with each other in a pass of their own
+# (kept by the repository's own suite); these attributes exercise that pass
+PUBLIC_VEH_ATTRS = ("eligible", "no_fleet", "off_shift_no_fleet", "low_range_no_fleet", "out_of_service_no_fleet")
+PUBLIC_REQ_ATTRS = ("waiting", "public", "public_has_vehicle")
 
 
 def cells7() -> List[str]:
@@ -62,6 +66,9 @@ class Ctx:
         v = self._veh.get(k)
         if v is None:
             fl = {"eligible": ("f1",), "other_fleet": ("f2",), "no_fleet": (), "both_fleets": ("f1", "f2")}.get(attr, ("f1",))
+            if attr.endswith("_no_fleet"):
+                fl = ()
+                attr = attr[: -len("_no_fleet")]
             if not self.fleets:
                 fl = ()
             v = mk_vehicle(self.env, self.rn, f"v{i}", cell, "quiet", soc=0.5, fleets=fl)
@@ -86,10 +93,10 @@ class Ctx:
         r = self._req.get(k)
         if r is None:
             fleet = None
-            if self.fleets:
+            if self.fleets and not attr.startswith("public"):
                 fleet = "f2" if attr == "other_fleet" else "f1"
             r = Request.build(f"r{j}", cell, sites()["M2"], self.rn, SimTime.build(0), 1, False, fleet_id=fleet)
-            if attr == "has_vehicle":
+            if attr in ("has_vehicle", "public_has_vehicle"):
                 r = r.assign_dispatched_vehicle("vx", SimTime.build(0))
             elif attr.startswith("assigned:"):
                 r = r.assign_dispatched_vehicle(attr.split(":")[1], SimTime.build(0))
@@ -115,7 +122,10 @@ def vehicle_reason(ctx: Ctx, v, fleet: Optional[str]) -> Optional[str]:
     m = ctx.env.mechatronics[v.mechatronics_id]
     if not m.range_remaining_km(v) > RANGE_THRESHOLD_KM:
         return "range below threshold"
-    if fleet is not None and fleet not in v.membership.memberships:
+    if fleet == "<public>":
+        if v.membership.memberships:
+            return "belongs to a fleet"
+    elif fleet is not None and fleet not in v.membership.memberships:
         return "no fleet" if not v.membership.memberships else "other fleet"
     return None
 
@@ -123,7 +133,10 @@ def vehicle_reason(ctx: Ctx, v, fleet: Optional[str]) -> Optional[str]:
 def request_reason(r, fleet: Optional[str]) -> Optional[str]:
     if r.dispatched_vehicle is not None:
         return "already has a vehicle"
-    if fleet is not None and fleet not in r.membership.memberships:
+    if fleet == "<public>":
+        if r.membership.memberships:
+            return "belongs to a fleet"
+    elif fleet is not None and r.membership.memberships and fleet not in r.membership.memberships:
         return "other fleet"
     return None
 
@@ -154,6 +167,28 @@ def judge(ctx: Ctx, sim) -> List[Tuple[tuple, str]]:
         _, instr = ctx.dispatcher.generate_instructions(sim, env_f)
         per_fleet[f] = [(i.vehicle_id, i.request_id) for i in instr]
     concat = sorted(p for f in fleets for p in per_fleet[f])
+    public_requests = [r for r in sim.get_requests() if not r.membership.memberships]
+    if ctx.fleets and public_requests:
+        # the pass of the fleet-less: validity of every pair against SOME pass (sizes are not decidable from outside here)
+        passes = list(fleets) + ["<public>"]
+        for i in all_instr:
+            v, r = sim.vehicles.get(i.vehicle_id), sim.requests.get(i.request_id)
+            if v is None or r is None:
+                out.append((("unknown_entity",), f"pair ({i.vehicle_id}, {i.request_id}) names a missing entity"))
+                continue
+            if not any(vehicle_reason(ctx, v, p) is None and request_reason(r, p) is None for p in passes):
+                own = "<public>" if not v.membership.memberships else sorted(v.membership.memberships)[0]
+                why_v, why_r = vehicle_reason(ctx, v, own), request_reason(r, own)
+                if why_v:
+                    out.append((("ineligible_vehicle", why_v, "public_pass"), f"vehicle {v.id} ({why_v}) paired with request {r.id}"))
+                else:
+                    out.append((("ineligible_request", str(why_r), "public_pass"), f"request {r.id} ({why_r}) paired with vehicle {v.id}"))
+        pub_v = [v for v in sim.get_vehicles() if vehicle_reason(ctx, v, "<public>") is None]
+        pub_r = [r for r in sim.get_requests() if request_reason(r, "<public>") is None]
+        npub = len([i for i in all_instr if not sim.vehicles[i.vehicle_id].membership.memberships]) if all(i.vehicle_id in sim.vehicles for i in all_instr) else 0
+        if npub != min(len(pub_v), len(pub_r)):
+            out.append((("size", "public_pass"), f"{npub} pairs for {len(pub_v)} eligible fleet-less vehicles and {len(pub_r)} eligible public requests"))
+        return out
     if sorted((i.vehicle_id, i.request_id) for i in all_instr) != concat:
         out.append((("not_per_fleet",), f"instructions for all fleets {sorted((i.vehicle_id, i.request_id) for i in all_instr)} are not the union of the per-fleet results {concat}"))
     for f in fleets:
@@ -281,6 +316,30 @@ def _rematch_shard(shard) -> Dict[str, Any]:
     return out
 
 
+def _public_shard(shard) -> Dict[str, Any]:
+    gi = shard
+    ctx = Ctx(("f1", "f2"))
+    cells = cells7()
+    vcells, rcells = GEOMS[gi]
+    out = {"cases": 0, "nontrivial": 0, "findings": {}, "samples": []}
+    for va in itertools.product(PUBLIC_VEH_ATTRS, repeat=3):
+        vehicles = [ctx.vehicle(k, cells[vcells[k]], va[k]) for k in range(3)]
+        sim_v = ctx.sim(vehicles, [])
+        for ra in itertools.product(PUBLIC_REQ_ATTRS, repeat=3):
+            sim = sim_v
+            for k in range(3):
+                sim = simulation_state_ops.add_request_safe(sim, ctx.request(k, cells[rcells[k]], ra[k])).unwrap()
+            out["cases"] += 1
+            if any(a.startswith("public") for a in ra) and any(a.endswith("no_fleet") for a in va):
+                out["nontrivial"] += 1
+            for sig, msg in judge(ctx, sim):
+                out["findings"].setdefault(sig, (msg, {"kind": "public", "geometry": gi, "vehicle_attrs": list(va), "request_attrs": list(ra)}))
+            if len(out["samples"]) < 1 and "off_shift_no_fleet" in va and "public" in ra:
+                out["samples"].append({"fleets": ["f1", "f2"], "geometry": gi, "vehicle_attrs": list(va), "request_attrs": list(ra)})
+    out["findings"] = [(list(k), m, rp) for k, (m, rp) in out["findings"].items()]
+    return out
+
+
 def c12() -> int:
     c = Check("C12", "bounded exhaustive enumeration of dispatcher inputs against a brute-force matcher")
     quick = tier() == "quick"
@@ -297,6 +356,7 @@ def c12() -> int:
     eshards = [(gi, fl, va0) for gi in range(len(GEOMS)) for fl in ((), ("f1", "f2"), ("f1",)) for va0 in VEH_ATTRS]
     eres = pmap(_elig_shard, rotate(eshards, seed()))
     eres += pmap(_rematch_shard, list(range(len(GEOMS))))
+    eres += pmap(_public_shard, list(range(len(GEOMS))))
     cases = sum(r["cases"] for r in gres + eres)
     nontrivial = sum(r["nontrivial"] for r in gres + eres)
     for r in gres + eres:
@@ -329,7 +389,12 @@ def c12() -> int:
 def replay(body) -> int:
     rp = body["replay"]
     cells = cells7()
-    if rp["kind"] == "rematch":
+    if rp["kind"] == "public":
+        ctx = Ctx(("f1", "f2"))
+        vc, rc = GEOMS[rp["geometry"]]
+        vs = [ctx.vehicle(k, cells[vc[k]], rp["vehicle_attrs"][k]) for k in range(3)]
+        rs = [ctx.request(k, cells[rc[k]], rp["request_attrs"][k]) for k in range(3)]
+    elif rp["kind"] == "rematch":
         ctx = Ctx((), valid_states=("idle", "repositioning", "dispatchtrip"))
         vc, rc = GEOMS[rp["geometry"]]
         vs = [ctx.vehicle(k, cells[vc[k]], rp["vehicle_attrs"][k]) for k in range(3)]
